@@ -4,7 +4,7 @@
     32-bit random values; UDP IPv4 uses the fixed block 41821+t and is isolated by the held local port only;
     cross-protocol pairs (e.g. ICMP vs UDP both reading ICMP errors) are covered by the correspondence, not proved. *)
 From Coq Require Import List ZArith Bool.
-From TR Require Import Lib.Bytes Wire.Decode Drv.Drivers Spec.C01 Pol.Alloc Proofs.AllocProofs Proofs.DrvProofs Proofs.IsoProofs Eng.Engine Eng.Timed Proofs.EngComplete Proofs.EngIso Generated.GoAlloc Proofs.GoTieAlloc.
+From TR Require Import Lib.Bytes Wire.Decode Drv.Drivers Spec.C01 Pol.Alloc Proofs.AllocProofs Proofs.DrvProofs Proofs.IsoProofs Eng.Engine Eng.Timed Proofs.EngComplete Proofs.EngIso Generated.GoAlloc Proofs.GoTieAlloc Proofs.SerialComplete.
 Import ListNotations.
 Open Scope Z_scope.
 
@@ -83,4 +83,16 @@ Print Assumptions C11_AllocPacketID_tied.
 Theorem C11_nextEchoID_tied c : echo_ids c 1 = [go_icmp_nextEchoID c].
 Proof. exact (@go_nextEchoID_is_echo_ids c). Qed.
 Print Assumptions C11_nextEchoID_tied.
+
+(** the same for the serial engine (TCP SYN runs): foreign packets interleaved in any way with the run's own replies — one per TTL, each within its listening window — never enter the result and never keep an own reply out of it *)
+Theorem C11_shared_wire_isolation_serial p own foreign shared r :
+  (forall e, In e shared <-> In e own \/ In e foreign) ->
+  (forall e, In e foreign -> e_kind e = 1) ->
+  (forall e, In e own -> e_kind e = 0 /\ 0 <= e_delay e <= tp_timeout p) ->
+  NoDup (R shared) ->
+  serial_run p shared = TDone r ->
+  (forall q, In q (tr_accepted r) -> exists e, In e own /\ matches e q)
+  /\ (forall e s0, In e own -> In (e_ttl e, s0) (tr_sends r) -> exists q, In q (tr_accepted r) /\ matches e q).
+Proof. exact (@shared_wire_isolation_serial p own foreign shared r). Qed.
+Print Assumptions C11_shared_wire_isolation_serial.
 
